@@ -16,8 +16,11 @@ parameters, plus an own (Pillow-free) reader of the resolution fields the genera
       ["bmpppm", x, y]             BMP only: biXPelsPerMeter/biYPelsPerMeter overwritten (int32 >= 0)
 
     sniff(blob) -> "PNG"|"JPEG"|"GIF"|"BMP"|"TIFF"|None      (magic numbers only)
-    own_dpi(blob) -> (x, y) floats | None | "unknown"         (own parse of pHYs / JFIF / BMP header;
-                                                               "unknown" for TIFF and EXIF-only JPEG)
+    own_size(blob) -> (w, h) | None                            (header parse: PNG, GIF, BMP, JPEG SOFn)
+    own_dpi(blob) -> (x, y) floats | None | "unknown"         (own parse of pHYs / JFIF / BMP header /
+                                                               TIFF IFD0 tags 282, 283, 296; None = the file
+                                                               states no absolute resolution; "unknown" for
+                                                               EXIF-only JPEG and odd TIFF field types)
 
 Only Pillow's *encoders* are used here (and struct/zlib for the hand edits).
 """
